@@ -13,3 +13,5 @@ Lemma gen_serial_is_model : forall V (K : nat -> nat -> V) Nu Nv, gen_serial_ste
 Proof. reflexivity. Qed.
 Lemma gen_data_shape_is_model : forall Nu Nv, gen_data_shape Nu Nv = (Nu, Nv).
 Proof. reflexivity. Qed.
+Lemma gen_errors_reraised : gen_errors_reraised_after_join = true.
+Proof. reflexivity. Qed.
